@@ -262,6 +262,9 @@ ExpectedObs ==
 \* (the result a trial COMPLETES with may be added to the data set whatever the policy: on_trial_complete passes it on
 \*  when it lies beyond the last level the searcher was updated with)
 ObsLevelsMatchPolicy == (fresh /\ cf.sd # "none") => (ExpectedObs \subseteq pobs /\ pobs \subseteq ExpectedObs \cup cmpl)
+\* the property as stated ("... and no others"): the completion result is no exception (known finding F19: with policy
+\* "rungs" a trial that ends on its own between rung levels leaves an observation at a level the policy does not select)
+ObsLevelsStrict      == (fresh /\ cf.sd # "none") => (ExpectedObs \subseteq pobs /\ pobs \subseteq ExpectedObs)
 PendingOnlyLive      == (fresh /\ cf.sd # "none") => \A p \in ppend : st[p[1]] = "running"
 PendingNotObserved   == (fresh /\ cf.sd # "none") => ppend \cap pobs = {}
 ObsOnceAndTrue       == NoFlag("obs_duplicate") /\ NoFlag("obs_value") /\ NoFlag("pending_duplicate")
